@@ -15,6 +15,15 @@ CLAIMED = {
  "C05": ("exact-arithmetic monitor of fee_pool/tips (hooked snapshots) per batch and around the proposer phase, plus threshold probes at min-1 / min / min+k found by fixpoint",
          "Random histories at multipliers {0,1,2,100,10^6,2^40,2^64,2^100} and thousands of threshold probes (0-8 inputs, 1-60 outputs, extra covenants of every weight class incl. heavy loops and undecodable bytes): accepted => fee >= floor(refweight*mult/65536); below => rejected; pool += sum(min), tips += sum(fee-min) exactly; reward coin = pool>>16 + tips to the destination at the current height with pool/tips debited exactly; no action => nothing moves.",
          "Reference weight uses the reference covenant weight (cross-checked against the implementation by C12); multipliers above 2^100 and saturating pools are exercised by C09 only.", "6/C05"),
+ "C06": ("differential monitor of SealedState::apply_block against the statement's own criterion recomputed through the public API, on honest and singly-mutated blocks",
+         "Every block of random histories (all network classes, TIP-908 included) is applied to its parent as produced and under one mutation each of the 11 header fields, a transaction removed/added/altered, the proposer action added/dropped/changed, and to the wrong parent; accept iff the batch is valid and the recomputed header equals the declared one; the returned state has the declared header.",
+         "The expected header is computed with the implementation's own apply_tx_batch and seal (that is what the property states); their correctness is the business of the other properties.", "6/C06"),
+ "C07": ("structural monitor of every sealed state against an independent reference Merkle function, plus operation-order and single-component sensitivity experiments",
+         "Chaining (height, previous, network, history(h) for recorded ancestors); coins/pools/history/stakes/transactions roots recomputed from iterated contents (sparse and TIP-908 dense); inclusion proofs of entries verified by the library and by a reference verifier, tampered values and absent keys; every block transaction at its sorted position; equal maps built by different operation orders and detours; sibling states differing in one of 14 components.",
+         "blake3 is trusted; entries are sampled (24 per tree per state) when trees are larger.", "6/C07"),
+ "C08": ("two-lineage monitor: original state versus a state rebuilt from serialized block + rebuilt stake set + node-by-node copy of the content-addressed store, fed identical continuations",
+         "After every sealed block of random histories a restarted lineage is created and fed the same next 5 blocks (valid and hostile batches, proposer actions); accept/reject and the whole header must agree after every step. Restart points cover with/without action, pending tips, empty blocks, epoch boundaries, testnet 499->500 and fabricated mainnet activation heights.",
+         "The copied store is an in-process deep copy (no shared memory with the original), not a real disk.", "6/C08"),
  "C09": ("panic/abort monitor (catch_unwind + panic hook recording message, location and originating crate; one process per shard with a journal) around every API call on hostile workloads",
          "Random histories on all network classes with one hostile mutation per batch (16 field mutators + byte-level mutation that still deserializes), degenerate requests (zero-valued pool requests, empty/garbage/partial MelPoW proofs at all difficulties, undecodable stake documents, faucet-minted liquidity tokens, maximal values), extreme proposer deltas; apply_tx_batch, seal, next_unsealed, apply_block, confirm, from_block are all called under the monitor; deterministic probes replay the crash-class inputs of DESIGN section 9.",
          "Supply kept below 2^127 by construction (the property's precondition); overflow traps that exist only because dependency generics are instantiated with overflow checks are excluded (checked against a production-like build); hangs are bounded by the driver's watchdog and reported inconclusive.", "6/C09"),
